@@ -27,17 +27,40 @@ H0 = 1                # head round of a genesis chain
 
 WITNESSES = ["ReachPoolAdvance", "ReachSlotReuse", "ReachFar", "ReachExpired", "ReachPeerLimit", "ReachMissingTx",
              "ReachSecondPeerHandover", "ReachWritten3", "ReachAdvanceBadCert", "ReachFork", "ReachSizeErr",
-             "ReachRingFull", "ReachDropped"]
+             "ReachRingFull", "ReachDropped", "ReachRetry"]
 
 
 def model(ctx, d):
-    r = {}
-    r["A"] = ctx.tlc_mc(d, "MC_Pool.tla", "MC_Pool_A.cfg", workers=8, timeout=2400)
-    r["B"] = ctx.tlc_mc(d, "MC_Pool.tla", "MC_Pool_B.cfg", workers=8, timeout=2400)
-    r["ring"] = ctx.tlc_mc(d, "MC_Pool.tla", "MC_Pool_ring.cfg", workers=4, timeout=1200)
-    r["live"] = ctx.tlc_mc(d, "MC_Pool.tla", "MC_Pool_live.cfg", workers=2, timeout=1200)
-    for w in WITNESSES:
-        ctx.tlc_mc(d, "MC_Pool.tla", "MC_Pool_w_%s.cfg" % w, workers=4, timeout=900, expect_violation=w, count=False)
+    """E3. The three groups run side by side (the two large models dominate the wall time)."""
+    def big_a():
+        return {"A": ctx.tlc_mc(d, "MC_Pool.tla", "MC_Pool_A.cfg", workers=8, timeout=2400, count=False)}
+
+    def big_b():
+        return {"B": ctx.tlc_mc(d, "MC_Pool.tla", "MC_Pool_B.cfg", workers=6, timeout=2400, count=False)}
+
+    def small():
+        r = {}
+        r["ring"] = ctx.tlc_mc(d, "MC_Pool.tla", "MC_Pool_ring.cfg", workers=2, timeout=1200, count=False)
+        r["live"] = ctx.tlc_mc(d, "MC_Pool.tla", "MC_Pool_live.cfg", workers=2, timeout=1200, count=False)
+        # appendFinalSnapshot with its two reads (FinalIndex, then the head round) as separate steps, rounds fed through the pool
+        r["split"] = ctx.tlc_mc(d, "MC_Pool.tla", "MC_Pool_split.cfg", workers=2, timeout=1200, count=False)
+        # the live round also fed without the pool (own chain / restart), atomic reads
+        r["selffeed"] = ctx.tlc_mc(d, "MC_Pool.tla", "MC_Pool_selffeed.cfg", workers=2, timeout=1200, count=False)
+        for w in WITNESSES:
+            ctx.tlc_mc(d, "MC_Pool.tla", "MC_Pool_w_%s.cfg" % w, workers=2, timeout=900, expect_violation=w, count=False)
+        # both together: a snapshot can be put into the slot of the previous round (statement SlotPure fails) - the
+        # observation reported in DESIGN.md 13.5.2
+        ctx.tlc_mc(d, "MC_Pool.tla", "MC_Pool_w_Misplaced.cfg", workers=2, timeout=900, expect_violation="Inv", count=False)
+        return r
+
+    with ThreadPoolExecutor(max_workers=3) as ex:
+        futs = [ex.submit(f) for f in (big_a, big_b, small)]
+        r = {}
+        for f in futs:
+            r.update(f.result())
+    for v in r.values():
+        ctx.states += v["distinct"]
+        ctx.transitions += v["generated"]
     return {k: v["distinct"] for k, v in r.items()}
 
 
@@ -141,6 +164,11 @@ def validate(ctx, d, traces, workers=6):
             continue
         flat = [e for _, evs in part for e in evs]
         line = r["line"] or 1
+        n = 0
+        for _, evs in part:      # executions completely explained before the rejected line
+            n += len(evs)
+            if n < line:
+                accepted += 1
         ev = flat[line - 1] if line <= len(flat) else None
         verdict["full_rejected"] += 1
         ctx.log("pool E2: full conformance rejected at line %s of %s (%s): %s"
@@ -150,22 +178,23 @@ def validate(ctx, d, traces, workers=6):
                                "event": {k: v for k, v in (ev or {}).items() if k not in ("u",)}})
         r2 = ctx.tlc_trace(d, "Trace_Pool.tla", "Trace_Pool_monitor.cfg", p, timeout=2400, xss=True)
         if r2["accepted"]:
-            accepted += len(part)
             ctx.notes.append("chain pools: the real code differs from spec/Pool in a way none of its statements forbids "
                              "(see conformance_mismatches)")
             continue
         l2 = r2["line"] or 1
         ev2 = flat[l2 - 1] if l2 <= len(flat) else None
         verdict["monitor_rejected"] += 1
-        ctx.log("pool E2: pool monitor rejected at line %s: %s" % (l2, json.dumps({k: v for k, v in (ev2 or {}).items() if k != "u"})[:700]))
-        ctx.mismatches.append({"pool_monitor_line": l2, "statement": "retention / handover window / no handover after the write / "
-                               "slot purity / index lockstep (spec/Pool/Trace_Pool.tla Monitor)",
+        stmt = r2["invariant"] or "?"
+        verdict.setdefault("statements", []).append(stmt)
+        ctx.log("pool E2: pool monitor rejected at line %s, statement %s: %s"
+                % (l2, stmt, json.dumps({k: v for k, v in (ev2 or {}).items() if k != "u"})[:700]))
+        ctx.mismatches.append({"pool_monitor_line": l2, "statement": stmt + " (spec/Pool/Trace_Pool.tla: MonRetention, MonPure, MonIndex, "
+                               "MonHandover = retention / slot purity / index lockstep / handover window and no handover after the write)",
                                "event": {k: v for k, v in (ev2 or {}).items() if k not in ("u",)}})
         ctx.notes.append("chain pools: a statement of spec/Pool is violated by the real code; it is not implied by C19's text "
                          "and is recorded as a conformance mismatch")
         r3 = ctx.tlc_trace(d, "Trace_Pool.tla", "Trace_Pool_c19.cfg", p, timeout=2400, xss=True)
         if r3["accepted"]:
-            accepted += len(part)
             continue
         l3 = r3["line"] or 1
         verdict["c19_rejected"] += 1
@@ -187,7 +216,7 @@ def run_pool(ctx):
     rng = random.Random(ctx.seed * 7919 + 19)
     d = ctx.specdir("Pool")
     # ---- E3
-    sizes = model(ctx, d)
+    sizes = model(ctx, d) if not os.environ.get("VERIF_POOL_SKIP_MODEL") else {}
     # ---- E1
     edges = ctx.tlc_edges(d, "MC_Pool.tla", "Gen_Pool_A.cfg", timeout=2400)
     uni = next(e for e in edges if e.get("u"))
